@@ -1,0 +1,53 @@
+//go:build verif
+
+// Contracts for the govc verifier (/verif). Comment-only: this file contains no code.
+package consul
+
+//@ // ---- C01: which service instances are healthy ---------------------------------------------------
+//@ spec fun statusIn(s string, status []string) bool opaque = exists k int :: 0 <= k && k < len(status) && status[k] == s
+//@ spec fun svcCheck(c *api.HealthCheck) bool = c.ServiceID != "" && c.CheckID != "serfHealth" && c.CheckID != "_node_maintenance" && !hasPrefix(c.CheckID, "_service_maintenance:")
+//@ spec fun sameInst(a *api.HealthCheck, b *api.HealthCheck) bool = a.Node == b.Node && a.ServiceID == b.ServiceID
+//@ // c takes svc's instance out of service: dead agent on the node, node maintenance, or maintenance of that very service
+//@ spec fun blocks(c *api.HealthCheck, svc *api.HealthCheck) bool = svc.Node == c.Node && ((c.CheckID == "serfHealth" && c.Status == "critical") || c.CheckID == "_node_maintenance" || (c.CheckID == "_service_maintenance:" + svc.ServiceID && c.Status == "critical"))
+//@ // checks of svc's instance among cs[0..n), and those of them with an accepted status
+//@ spec fun nSame(cs []*api.HealthCheck, svc *api.HealthCheck, n int) int decreases n = n <= 0 ? 0 : nSame(cs, svc, n-1) + (sameInst(svc, cs[n-1]) ? 1 : 0)
+//@ spec fun nPass(cs []*api.HealthCheck, svc *api.HealthCheck, n int, status []string) int decreases n = n <= 0 ? 0 : nPass(cs, svc, n-1, status) + (sameInst(svc, cs[n-1]) && statusIn(cs[n-1].Status, status) ? 1 : 0)
+//@ // healthy: a service check whose instance has an accepted check (all of them in strict mode) and is not blocked by
+//@ // a dead agent, node maintenance or its own service maintenance
+//@ spec fun healthy(cs []*api.HealthCheck, svc *api.HealthCheck, status []string, strict bool) bool opaque = svcCheck(svc) && !(exists j int :: 0 <= j && j < len(cs) && blocks(cs[j], svc)) && nPass(cs, svc, len(cs), status) > 0 && (strict ==> nPass(cs, svc, len(cs), status) == nSame(cs, svc, len(cs)))
+//@
+//@ func hasStatus
+//@   props C01
+//@   requires c != nil
+//@   assigns nothing
+//@   ensures nopanic
+//@   ensures result == statusIn(c.Status, status)
+//@   loop 1 invariant forall k int :: 0 <= k && k <= rangeindex ==> status[k] != c.Status
+//@
+//@ func isServiceCheck
+//@   props C01
+//@   requires c != nil
+//@   assigns nothing
+//@   ensures nopanic
+//@   ensures result == svcCheck(c)
+//@
+//@ // number of healthy instances' checks among cs[0..n): position of cs[n] in the filtered list
+//@ spec fun cnt(cs []*api.HealthCheck, n int, status []string, strict bool) int decreases n = n <= 0 ? 0 : cnt(cs, n-1, status, strict) + (healthy(cs, cs[n-1], status, strict) ? 1 : 0)
+//@
+//@ func passingServices
+//@   props C01
+//@   requires forall i int :: 0 <= i && i < len(checks) ==> checks[i] != nil
+//@   assigns nothing
+//@   ensures nopanic
+//@   // the result is exactly the order-preserving filter of checks by healthy():
+//@   ensures len(result) == cnt(checks, len(checks), status, strict)
+//@   ensures forall i int :: 0 <= i && i < len(checks) && healthy(checks, checks[i], status, strict) ==> 0 <= cnt(checks, i, status, strict) && cnt(checks, i, status, strict) < len(result) && result[cnt(checks, i, status, strict)] == checks[i]
+//@   loop 1 invariant p == nil || fresh(p)
+//@   loop 1 invariant len(p) == cnt(checks, rangeindex+1, status, strict)
+//@   loop 1 invariant forall i int :: 0 <= i && i <= rangeindex && healthy(checks, checks[i], status, strict) ==> 0 <= cnt(checks, i, status, strict) && cnt(checks, i, status, strict) < len(p) && p[cnt(checks, i, status, strict)] == checks[i]
+//@   at "p = append(p, svc)" assert healthy(checks, svc, status, strict) && p[len(p)-1] == svc
+//@   loop 2 invariant svc != nil
+//@   loop 2 invariant svcCheck(svc)
+//@   loop 2 invariant 0 <= passing && passing <= total && total <= rangeindex + 1
+//@   loop 2 invariant total == nSame(checks, svc, rangeindex+1) && passing == nPass(checks, svc, rangeindex+1, status)
+//@   loop 2 invariant forall j int :: 0 <= j && j <= rangeindex ==> !blocks(checks[j], svc)
